@@ -27,7 +27,8 @@ type Edit struct {
 var BreakingEdits = []string{"remove-scope", "prefix-add-token", "prefix-remove-token", "prefix-rename-token", "prefix-add-var", "prefix-remove-var",
 	"remove-op", "retype-op", "remove-structlike", "retype-field", "toggle-required", "add-required-field", "remove-nonoptional-field",
 	"remove-enum-value", "renumber-enum-value", "remove-service", "change-extends", "remove-method", "toggle-oneway", "retype-return",
-	"retype-arg", "remove-arg", "add-required-arg", "retype-exception", "add-exception-to-bare-void", "remove-last-exception-of-void", "retarget-typedef"}
+	"retype-arg", "remove-arg", "add-required-arg", "retype-exception", "add-exception-to-bare-void", "remove-last-exception-of-void", "retarget-typedef",
+	"add-required-field-in-middle", "add-required-arg-in-middle"}
 
 var CompatibleEdits = []string{"identity", "rename-field", "rename-arg", "rename-exception", "rename-prefix-var", "rename-enum-variant",
 	"add-optional-field", "add-default-field", "add-field-in-middle", "add-enum-value", "add-method", "add-service", "add-scope", "add-op", "add-struct",
@@ -459,7 +460,29 @@ func ApplyEdit(p *Program, e Edit) (q *Program, ok bool, site string) {
 			f.Type = &Type{Kind: "ref", Name: name, File: ed.r}
 		}
 		return q, true, site
-	case "add-required-field", "add-optional-field", "add-default-field", "add-field-in-middle", "reorder-fields":
+	case "add-required-arg-in-middle":
+		for _, ms := range ed.methodSites() {
+			m := &ms.svc.Methods[ms.idx]
+			used := map[int]bool{}
+			lo, hi := 1<<30, 0
+			for _, f := range m.Args {
+				used[f.ID] = true
+				if f.ID < lo {
+					lo = f.ID
+				}
+				if f.ID > hi {
+					hi = f.ID
+				}
+			}
+			for id := lo + 1; id < hi; id++ {
+				if !used[id] {
+					m.Args = append(m.Args, Field{ID: id, Name: freshMember(m.Args, "middleArg"), Req: "required", Type: &Type{Kind: "base", Name: "bool"}})
+					return q, true, fmt.Sprintf("service %s method %s", ms.svc.Name, m.Name)
+				}
+			}
+		}
+		return q, false, ""
+	case "add-required-field", "add-optional-field", "add-default-field", "add-field-in-middle", "add-required-field-in-middle", "reorder-fields":
 		var ds []*Decl
 		for _, d := range ed.decls("struct", "exception") {
 			ds = append(ds, d)
@@ -478,7 +501,7 @@ func ApplyEdit(p *Program, e Edit) (q *Program, ok bool, site string) {
 			}
 			i := pick2(len(d.Fields) - 1)
 			d.Fields[i], d.Fields[i+1] = d.Fields[i+1], d.Fields[i]
-		case "add-field-in-middle":
+		case "add-field-in-middle", "add-required-field-in-middle":
 			// an unused id strictly between the smallest and the largest id
 			used := map[int]bool{}
 			lo, hi := 1<<30, 0
@@ -501,7 +524,14 @@ func ApplyEdit(p *Program, e Edit) (q *Program, ok bool, site string) {
 			if id == 0 {
 				return q, false, ""
 			}
-			d.Fields = append(d.Fields, Field{ID: id, Name: freshMember(d.Fields, "middle"), Req: "optional", Type: &Type{Kind: "base", Name: "string"}})
+			req := "optional"
+			if e.Kind == "add-required-field-in-middle" {
+				if d.Kind == "union" {
+					return q, false, ""
+				}
+				req = "required"
+			}
+			d.Fields = append(d.Fields, Field{ID: id, Name: freshMember(d.Fields, "middle"), Req: req, Type: &Type{Kind: "base", Name: "string"}})
 		default:
 			req := map[string]string{"add-required-field": "required", "add-optional-field": "optional", "add-default-field": ""}[e.Kind]
 			if d.Kind == "union" {
